@@ -116,7 +116,7 @@ def run(ctx):
                 ctx.ob("R11.monotone", key, P.where(a),
                        "store to filter bits `%s` must be monotone (|=)" % src(a),
                        a.op == "|=", "op is %s" % a.op)
-            elif a.k == "CallExpr" and a.callee in ("memset", "memcpy", "memmove") and a.args() and f.name != "carquet_bloom_filter_from_data":
+            elif a.k == "CallExpr" and a.callee in ("memset", "memcpy", "memmove") and a.args() and f.name not in ("carquet_bloom_filter_from_data", "carquet_bloom_filter_merge"):
                 if is_bits(f, cz, a.args()[0]):
                     nstores += 1
                     key = "bulk-store|%s:%s|%s" % (BF, f.name, a.callee)
